@@ -7,4 +7,9 @@ EXTENDS Server, Json, CSV, IOUtils
 
 EmitBehaviour ==
     CSVWrite("%1$s", <<ToJson([steps |-> hist'])>>, IOEnv.QXV_GEN)
+
+\* quick-tier bound: no second authentication on a connection that is already authenticated
+\* (accepted by the server; explored by the thorough tour and the random walks)
+NoReauth == c.authed # "" => hist'[Len(hist')].a # "Auth"
+EmitNoReauth == NoReauth /\ EmitBehaviour
 =============================================================================
